@@ -72,7 +72,31 @@ def _psum(*a):
     return sum(a)
 
 
+_EXACT = [False]
+
+
+class exact:
+    """with refsem.exact(): int / int and int ** -n stay exact rationals.  For laws that hold
+    over exact arithmetic (a rewrite may reassociate a sum; with a float by-product below a
+    // or % that moves the result by a whole unit)."""
+
+    def __enter__(self):
+        self.old = _EXACT[0]
+        _EXACT[0] = True
+
+    def __exit__(self, *a):
+        _EXACT[0] = self.old
+
+
+def _rat(v):
+    from fractions import Fraction
+    return isinstance(v, (int, Fraction)) and not isinstance(v, bool)
+
+
 def _truediv(a, b):
+    if _EXACT[0] and _rat(a) and _rat(b):
+        from fractions import Fraction
+        return Fraction(a) / Fraction(b)
     return a / b
 
 
@@ -152,9 +176,9 @@ def ev(e, env, over=None, log=None, faults=None):
     if t is p.Remainder:
         return ap(operator.mod, r(e.numerator), r(e.denominator))
     if isinstance(e, p.Power):
-        return ap(operator.pow, r(e.base), r(e.exponent))
+        return ap(_pow, r(e.base), r(e.exponent))
     if t is p.LeftShift:
-        return ap(operator.lshift, r(e.shiftee), r(e.shift))
+        return ap(_lshift, r(e.shiftee), r(e.shift))
     if t is p.RightShift:
         return ap(operator.rshift, r(e.shiftee), r(e.shift))
     if isinstance(e, p.BitwiseNot):
@@ -254,6 +278,36 @@ def expected(e, env, over=None):
     if faults:
         return faults[0], faults, log
     return ("v", v), faults, log
+
+
+class TooCostly(BaseException):
+    """The reference refuses an input whose value has millions of bits (towers of powers,
+    huge shifts): Python would compute it, in minutes.  Deterministic (no clock); the case is
+    skipped and counted, never judged."""
+
+
+MAX_BITS = 2_000_000
+
+
+def _isint(v):
+    return isinstance(v, int)
+
+
+def _pow(a, b):
+    from fractions import Fraction
+    if _isint(b) and isinstance(a, (int, Fraction)) and abs(b) > 64:
+        n = max(abs(a.numerator), abs(a.denominator)) if isinstance(a, Fraction) else abs(a)
+        if n > 1 and n.bit_length() * abs(b) > MAX_BITS:
+            raise TooCostly()
+    if _EXACT[0] and _rat(a) and _isint(b) and not isinstance(b, bool) and b < 0:
+        return Fraction(a) ** b
+    return operator.pow(a, b)
+
+
+def _lshift(a, b):
+    if _isint(a) and _isint(b) and b > MAX_BITS:
+        raise TooCostly()
+    return operator.lshift(a, b)
 
 
 def values_equal(a, b) -> bool:
